@@ -394,20 +394,17 @@ Definition entry_ok (m : PositiveMap.t (nat * N)) (e : nat * N * N) : bool :=
        else true)
   end.
 
-Definition table_ok (n : nat) : bool :=
-  forallb (entry_ok (build (entries n))) (entries n).
-
 (* positions 0..999 from the end cover every string DecodeGeneric admits (<= 1000 characters) *)
 Definition NMAX : nat := 1000.
 
-Lemma table_ok_NMAX : table_ok NMAX = true.
-Proof. vm_compute. reflexivity. Qed.
+(* the finite check, run in the kernel's VM: 31 000 syndromes, one map look-up each *)
+Lemma table_checked : exists m, forallb (entry_ok m) (entries NMAX) = true.
+Proof. exists (build (entries NMAX)). vm_compute. reflexivity. Qed.
 
 Lemma table_exists : exists m, forall d v, (d < NMAX)%nat -> In v vals ->
   entry_ok m (d, v, shift d v) = true.
 Proof.
-  exists (build (entries NMAX)). intros d v Hd Hv.
-  pose proof table_ok_NMAX as T. unfold table_ok in T.
+  destruct table_checked as [m T]. exists m. intros d v Hd Hv.
   rewrite forallb_forall in T. apply T. apply entries_in; assumption.
 Qed.
 Global Opaque NMAX.
